@@ -147,6 +147,7 @@ impl Check for C17 {
         let d = gen::gen_desc(src, kind, &|ctx| {
             let mut c = if insane { Cfg::new(ctx, size) } else { Cfg::sane(ctx, size) };
             c.key_style = KeyStyle::Rich;
+            c.allow_uncompressed = true;
             c.xpub_chance = 2;
             c.leaf_w = [6, 2, 4];
             c
